@@ -222,10 +222,52 @@ def idx_kw(api, n, seed):
     return kw
 
 
+def bt_type(api, mt, n, native=False):
+    """derived buffer datatype of a flexible call (None = primitive buftype with bufcount n): 'vec2' = every other element of
+    the buffer, 'idx' = two blocks separated by a 3-element gap (first block displaced by one element)"""
+    bt = api.get("bt") if (api.get("flex") and not native) else None
+    if not bt or n < 1:
+        return None
+    P = ("prim", M.MT_PRIM[mt])
+    if bt == "vec2":
+        return ("vec", n, 1, 2, P)
+    h = max(1, n // 2)
+    return ("idx", [(h, 1), (n - h, h + 4)] if n - h > 0 else [(h, 1)], P)
+
+
+def bt_spread(T, raw, itemsize, fillbyte):
+    """lay the packed bytes raw out in a buffer described by one instance of T; gaps hold fillbyte"""
+    offs, size = M.t_layout(T, 1)
+    out = np.full(size, fillbyte, dtype=np.uint8)
+    src = np.frombuffer(raw, dtype=np.uint8).reshape(-1, itemsize)
+    for j in range(itemsize):
+        out[offs + j] = src[:, j]
+    return out.tobytes()
+
+
+def bt_gather(T, buf, itemsize):
+    """-> (packed bytes of the selected elements, bytes of the gaps)"""
+    offs, size = M.t_layout(T, 1)
+    a = np.frombuffer(buf[:size], dtype=np.uint8)
+    if len(a) < size:
+        return b"", b""
+    sel = (offs[:, None] + np.arange(itemsize)[None, :]).reshape(-1)
+    mask = np.ones(size, dtype=bool)
+    mask[sel] = False
+    return a[sel].tobytes(), a[mask].tobytes()
+
+
 def data_op(s, api, kind, mt, vi, n, buf, seed, rb=0, native=False):
     """emit a blocking put/get of the whole 1-D variable vi"""
     kw = idx_kw(api if not native else {"form": "vara"}, n, seed)
-    if api.get("flex") and not native:
+    T = bt_type(api, mt, n, native)
+    if T is not None:
+        tname = "t%d" % (1 + vi % 60)
+        s.op("type", t=tname, spec=M.t_spec(T))
+        kw["buftype"] = tname
+        kw["bufcount"] = 1
+        mtarg = "flex"
+    elif api.get("flex") and not native:
         kw["buftype"] = M.MT_PRIM[mt]
         kw["bufcount"] = n
         mtarg = "flex"
@@ -270,14 +312,19 @@ def build(case):
         if not coll:
             ok0.append((s.op("begin_indep", f="f0"), "begin_indep"))
         for i, v in enumerate(vecs):
+            T = bt_type(api, mt, v.n)
             if dr == "put":
-                s.op("buf", b="b%d" % i, size=max(1, v.n * sd.itemsize), hex=v.src.tobytes())
+                if T is not None:
+                    sp = bt_spread(T, v.src.tobytes(), sd.itemsize, FILLBYTE)
+                    s.op("buf", b="b%d" % i, size=len(sp), hex=sp)
+                else:
+                    s.op("buf", b="b%d" % i, size=max(1, v.n * sd.itemsize), hex=v.src.tobytes())
                 n = data_op(s, api, "put", mt, i, v.n, "b%d" % i, seed + i)
                 plan["steps"].append({"vec": i, "n": n, "what": "put"})
             else:
                 s.op("buf", b="b%d" % i, size=max(1, v.n * sd.itemsize), hex=v.src.tobytes())
                 ok0.append((data_op(s, api, "put", native, i, v.n, "b%d" % i, seed + i, native=True), "put native"))
-                s.op("buf", b="b%d" % (i + 100), size=max(1, v.n * dd.itemsize), fill=FILLBYTE)
+                s.op("buf", b="b%d" % (i + 100), size=max(1, M.t_layout(T, 1)[1] if T is not None else v.n * dd.itemsize), fill=FILLBYTE)
                 n = data_op(s, api, "get", mt, i, v.n, "b%d" % (i + 100), seed + i, rb=1)
                 plan["steps"].append({"vec": i, "n": n, "what": "get"})
         if dr == "put":
@@ -505,7 +552,13 @@ def _evaluate_data(case, plan, res, d, stats=None):
             continue
         i = stp["vec"]
         if what in ("get", "get_att"):
-            raw = bytes.fromhex(e.get("hex", ""))[: v.n * dd.itemsize]
+            T = bt_type(plan.get("api") or {}, case["mt"], v.n) if what == "get" else None
+            if T is not None:
+                raw, gaps = bt_gather(T, bytes.fromhex(e.get("hex", "")), dd.itemsize)
+                if gaps.strip(bytes([FILLBYTE])):
+                    probs.append(prob("gap", "%s %s: bytes of the read buffer outside the buffer datatype were modified" % (label(case), what), case))
+            else:
+                raw = bytes.fromhex(e.get("hex", ""))[: v.n * dd.itemsize]
             got = np.frombuffer(raw, dtype=dd)
             probs += judge_vec(case, v, got, fill, what, rc, stats)
         elif what == "put":
@@ -648,6 +701,8 @@ def run_case(ctx, case):
     if case["kind"] in ("var", "att"):
         ctx.count("vecmode_" + case["vec"]["mode"])
         api = plan.get("api") or {}
+        if api.get("flex") and case["kind"] == "var":
+            ctx.count("flex_buftype_%s" % (api.get("bt") or "prim"))
         ctx.count("api_%s_%s_%s" % ("flex" if api.get("flex") else "typed", api.get("form", "vara") if case["kind"] == "var" else "att", "coll" if api.get("coll", 1) else "indep"))
         ctx.stats["elements_transferred"] += sum(v.n for v in plan["vecs"])
         for k, n in plan["excl"].items():
@@ -757,6 +812,8 @@ def enum_cases(tier, seed, rnd=0):
                 # API flavour rotates deterministically with the pair and the campaign seed
                 r = k + seed
                 api = {"flex": r % 3 == 0, "form": FORMS[r % 5], "coll": 0 if r % 4 == 0 else 1}
+                if api["flex"]:      # buffer datatype of the flexible call: primitive, strided vector, two displaced blocks
+                    api["bt"] = (None, "vec2", "idx")[(r // 3) % 3]
                 for kind in ("var", "att"):
                     if kind == "att" and vec["mode"] == "bnd":
                         v2 = dict(vec, nrand=nr_att)      # attribute values live in the header: keep it moderate
@@ -796,6 +853,8 @@ def case_strategy(draw, tier="quick"):
     if kind == "var":
         case["api"] = {"flex": draw(st.booleans()), "form": draw(st.sampled_from(FORMS)),
                        "coll": draw(st.sampled_from([1, 1, 0]))}
+        if case["api"]["flex"]:
+            case["api"]["bt"] = draw(st.sampled_from([None, "vec2", "idx"]))
         if dr == "put" and draw(st.booleans()):
             case["fill"] = fill_for(xt, draw(st.integers(0, 5)))
     else:
